@@ -615,6 +615,20 @@ func (p *Parser) ParsingIter() iter.Seq[*ParserReply] {
 		// allow ParseExpression to yield when deep
 		// down the stack (half way through a parse)
 		// and we need more input.
+		// Once the consumer has left the loop (yield returned false, as the
+		// read builtin does at a request for more input) yield must not be
+		// called again: Go panics on that.
+		stopped := false
+		inner := yield
+		yield = func(r *ParserReply) bool {
+			if stopped {
+				return false
+			}
+			if !inner(r) {
+				stopped = true
+			}
+			return !stopped
+		}
 		p.yield = yield
 
 		var expr Sexp
